@@ -144,7 +144,11 @@ class Universe:
         if c.get("generic") is not None and f.get("tvar"):
             return "T"
         name = f"_t{len(self.ns)}"
-        self.ns[name] = self.py_type(f["ty"])
+        tp = self.py_type(f["ty"])
+        if f.get("annotated") is not None:
+            # a type hint tag: transparent for the linking rules and for the model (shapes carry the bare type)
+            tp = typing.Annotated[tp, f["annotated"]]
+        self.ns[name] = tp
         return name
 
     def _materialise(self, c):
